@@ -45,6 +45,7 @@ def jPyOut : PyOut → Json
   | .typeError => jObj [("kind", "exc"), ("exc", "TypeError")]
   | .overflowError => jObj [("kind", "exc"), ("exc", "OverflowError")]
   | .valueError => jObj [("kind", "exc"), ("exc", "ValueError")]
+  | .osError => jObj [("kind", "exc"), ("exc", "OSError")]
   | .ub => jObj [("kind", "ub")]
   | .syscall p => jObj [("kind", "syscall"), ("packed", jInt p)]
 
